@@ -1,4 +1,8 @@
-"""Import mistral in an order that avoids its circular imports, quietly."""
+"""Import mistral in an order that avoids its import traps, quietly.
+
+mistral.tests.unit must be imported FIRST: it selects the oslo.service threading backend
+(otherwise eventlet gets selected implicitly and the test base can no longer be imported) and
+parses the test configuration."""
 import logging
 import warnings
 
@@ -10,7 +14,9 @@ def boot():
     global _done
     if _done:
         return
-    from mistral.db.v2 import api as db_api  # noqa: must come first
+    import mistral.tests.unit  # noqa: backend selection
+    from mistral.tests.unit import base as tbase  # noqa: test config, import order
+    from mistral.db.v2 import api as db_api  # noqa
     from mistral import config  # noqa
     logging.disable(logging.CRITICAL)
     _done = True
